@@ -2,8 +2,12 @@
 C06 — message framing does not depend on how the byte stream is segmented.
 Model: Model/Envelope.lean (`decodeInner` = protocol.rs decode_inner, `Framing` = the
 tokio_util FramedRead loop: append what was read, decode until `None`).
+Second half: the composition with the connection model (Model/Conn.lean) — the frames and the error flag
+the connection level is fed, and hence every run of it, do not depend on the segmentation
+(`C06_conn_log_independent_of_segmentation`, `C06_conn_run_independent_of_segmentation`, `C06_conn_log_of_wf_stream`).
 -/
 import Ldap3V.Lemmas.FramingWF
+import Ldap3V.Lemmas.FramingConn
 namespace Ldap3V
 open Spec
 
@@ -79,6 +83,122 @@ example : Enc exMsg.tlv [0x30, 0x0c, 0x02, 0x01, 0x01, 0x6b, 0x07, 0x0a, 0x01, 0
 
 example : (Framing.feedAll {} [[0x30, 0x0c, 0x02], [0x01, 0x01, 0x6b, 0x07, 0x0a, 0x01, 0x00, 0x04], [0x00, 0x04, 0x00, 0x30]]).buf = [0x30] ∧
     (Framing.feedAll {} [[0x30, 0x0c, 0x02], [0x01, 0x01, 0x6b, 0x07, 0x0a, 0x01, 0x00, 0x04], [0x00, 0x04, 0x00, 0x30]]).frames.map (·.1) = [1] := by
+  decide
+
+/-! ## composition with the connection model ("C01_with_framing")
+
+The connection model (Model/Conn.lean) works on a log of abstract frames `Conn.Frame` and a `link`
+state; the byte level above produces decoded messages and an error flag.  `connFramesWith tokOf cs`
+(Lemmas/FramingConn.lean) is the translation: the `i`-th message `(id, op, ctrls)` delivered by the
+read loop on the reads `cs` becomes the frame `⟨id, op.id, tokOf i (id, op, ctrls), (resultExt op).isSome⟩`
+(message ID, protocolOp tag number, a token for the rest of the content, "the protocolOp is
+LDAPResult-shaped" — exactly what the driver and `op_call` look at), paired with the loop's error
+flag; `connFrames` uses the position `i` as the token.  `srvEvents` turns the pair into the model's
+events `srvSend f₀, srvSend f₁, …` followed by `srvGarbage` if the flag is set; `weave srv segs`
+inserts client/driver events `segs[i]` before the `i`-th of them. -/
+
+/-- **The connection model's input does not depend on how the server's bytes were segmented**: for
+ANY byte stream and any two ways of cutting it into reads, the frames handed to the connection
+level and the error flag are the same — for every choice of tokens, and also when the stream then
+ends (`decode_eof`: leftover bytes are an error). -/
+theorem C06_conn_log_independent_of_segmentation (cs cs' : List Bytes) (h : cs.flatten = cs'.flatten) :
+    connFrames cs = connFrames cs' ∧ connFramesEof cs = connFramesEof cs' ∧
+    ∀ tokOf, connFramesWith tokOf cs = connFramesWith tokOf cs' ∧ connFramesEofWith tokOf cs = connFramesEofWith tokOf cs' :=
+  ⟨connFramesWith_flatten _ cs cs' h, connFramesEofWith_flatten _ cs cs' h,
+    fun tokOf => ⟨connFramesWith_flatten tokOf cs cs' h, connFramesEofWith_flatten tokOf cs cs' h⟩⟩
+
+/-- … hence **every run of the connection model is the same under every segmentation of the same
+server byte stream**: from any state `s`, with the server's events first and then ANY events `evs`
+(client calls, driver steps, ticks, faults), the final state and every observation on the way —
+every ID handed out, every result an operation returns, every item a stream delivers — are equal.
+Also with the transport closed after the stream (`srvEventsEof`). -/
+theorem C06_conn_run_independent_of_segmentation (cs cs' : List Bytes) (h : cs.flatten = cs'.flatten)
+    (s : Conn.St) (evs : List Conn.Ev) :
+    Conn.runObs s (srvEvents (connFrames cs) ++ evs) = Conn.runObs s (srvEvents (connFrames cs') ++ evs) ∧
+    Conn.run s (srvEvents (connFrames cs) ++ evs) = Conn.run s (srvEvents (connFrames cs') ++ evs) ∧
+    Conn.runObs s (srvEventsEof (connFramesEof cs) ++ evs) = Conn.runObs s (srvEventsEof (connFramesEof cs') ++ evs) ∧
+    Conn.run s (srvEventsEof (connFramesEof cs) ++ evs) = Conn.run s (srvEventsEof (connFramesEof cs') ++ evs) := by
+  obtain ⟨h1, h2, _⟩ := C06_conn_log_independent_of_segmentation cs cs' h
+  rw [h1, h2]
+  exact ⟨rfl, rfl, rfl, rfl⟩
+
+/-- … and with the server's events interleaved in any way with the others (`segs[i]` happens before
+the `i`-th server event), for any token assignment -/
+theorem C06_conn_run_independent_of_segmentation_weave (cs cs' : List Bytes) (h : cs.flatten = cs'.flatten)
+    (tokOf : Nat → Int × Tlv × List Control → Nat) (s : Conn.St) (segs : List (List Conn.Ev)) :
+    Conn.runObs s (weave (srvEvents (connFramesWith tokOf cs)) segs) =
+      Conn.runObs s (weave (srvEvents (connFramesWith tokOf cs')) segs) ∧
+    Conn.run s (weave (srvEvents (connFramesWith tokOf cs)) segs) =
+      Conn.run s (weave (srvEvents (connFramesWith tokOf cs')) segs) := by
+  rw [connFramesWith_flatten tokOf cs cs' h]
+  exact ⟨rfl, rfl⟩
+
+/-- **C01_with_framing.**  For every sequence of well-formed messages in any definite-length
+encodings and EVERY segmentation of their concatenation into reads, with the client's and driver's
+events `segs` interleaved in any way: the server log of the connection model is exactly the frames
+of the messages, in order — message ID, protocolOp number and LDAPResult-shape of each, tokens
+`0, 1, 2, …` — and the link is up.  So every theorem of C01/C03/C04 about `srvLog` (which frame goes
+to which operation, in which order) speaks about the messages the server encoded, however TCP
+cut them. -/
+theorem C06_conn_log_of_wf_stream (ms : List (WireMsg × Bytes)) (cs : List Bytes)
+    (hwf : ∀ p ∈ ms, p.1.WF ∧ Enc p.1.tlv p.2)
+    (hsz : (ms.map (·.2)).flatten.length < 18446744073709551616)
+    (hc : cs.flatten = (ms.map (·.2)).flatten)
+    (N : Nat) (segs : List (List Conn.Ev)) (hs : ∀ seg ∈ segs, ∀ e ∈ seg, Conn.isSrv e = false) :
+    connFrames cs = ((ms.map (·.1.frame)).mapIdx fun i m => connFrameWith i m, false) ∧
+    (Conn.run (Conn.init N) (weave (srvEvents (connFrames cs)) segs)).srvLog =
+      (ms.map (·.1.frame)).mapIdx (fun i m => connFrameWith i m) ∧
+    (Conn.run (Conn.init N) (weave (srvEvents (connFrames cs)) segs)).link = .up := by
+  have hf : connFrames cs = ((ms.map (·.1.frame)).mapIdx fun i m => connFrameWith i m, false) :=
+    connFramesWith_wf _ ms cs hwf hsz hc
+  refine ⟨hf, ?_⟩
+  rw [hf]
+  have := Conn.run_weave_srvEvents ((ms.map (·.1.frame)).mapIdx fun i m => connFrameWith i m) false segs (Conn.init N) rfl hs
+  simpa [Conn.init] using this
+
+/-- positional tokens identify frames: two frames of the log with the same token are the same entry -/
+theorem C06_conn_tokens_distinct (cs : List Bytes) (i j : Nat) (f g : Conn.Frame)
+    (hi : (connFrames cs).1[i]? = some f) (hj : (connFrames cs).1[j]? = some g) (ht : f.tok = g.tok) : i = j :=
+  connFrames_tok_inj cs i j f g hi hj ht
+
+/-! ### non-vacuity (tests) -/
+
+/-- a SearchResultEntry under message ID 2 (DN "x", no attributes) -/
+def exEntryMsg : WireMsg := ⟨[2], 2, .cons 1 4 [.prim 0 4 [0x78], .cons 0 16 []], none⟩
+def exMsgBytes : Bytes := [0x30, 0x0c, 0x02, 0x01, 0x01, 0x6b, 0x07, 0x0a, 0x01, 0x00, 0x04, 0x00, 0x04, 0x00]
+def exEntryBytes : Bytes := [0x30, 0x0a, 0x02, 0x01, 0x02, 0x64, 0x05, 0x04, 0x01, 0x78, 0x30, 0x00]
+
+example : exEntryMsg.WF ∧ Enc exEntryMsg.tlv exEntryBytes := by
+  refine ⟨⟨by decide, by decide, rfl, ?_, ?_⟩, ?_⟩
+  · intro cs h; cases h
+  · simp [WireMsg.tlv, exEntryMsg, msgTlv, Tlv.depth, Tlv.depthList, maxDepth]
+  · have := enc_encode exEntryMsg.tlv (by simp [exEntryMsg, WireMsg.tlv, msgTlv, WF, WFList, encodeList, encode, encType, encLen])
+    simpa [exEntryMsg, exEntryBytes, WireMsg.tlv, msgTlv, encodeList, encode, encType, encLen] using this
+
+/-- the two messages one byte at a time, all at once, and cut inside both: the same two frames
+(DelResponse: ID 1, op 11, LDAPResult-shaped; entry: ID 2, op 4, not), no error -/
+example :
+    ∀ cs ∈ [(exMsgBytes ++ exEntryBytes).map ([·]), [exMsgBytes ++ exEntryBytes],
+            [exMsgBytes.take 5, exMsgBytes.drop 5 ++ exEntryBytes.take 3, exEntryBytes.drop 3]],
+      cs.flatten = exMsgBytes ++ exEntryBytes ∧ connFrames cs = ([⟨1, 11, 0, true⟩, ⟨2, 4, 1, false⟩], false) := by decide
+
+/-- a bad element after one good message: one frame and the error flag, under both segmentations;
+cut off inside the second message: no error yet, but an error at end of stream -/
+example :
+    connFrames ((exMsgBytes ++ [0x30, 0x03, 0x04, 0x01, 0x41]).map ([·])) = ([⟨1, 11, 0, true⟩], true) ∧
+    connFrames [exMsgBytes ++ [0x30, 0x03, 0x04, 0x01, 0x41]] = ([⟨1, 11, 0, true⟩], true) ∧
+    connFrames [exMsgBytes ++ exEntryBytes.take 4] = ([⟨1, 11, 0, true⟩], false) ∧
+    connFramesEof [exMsgBytes ++ exEntryBytes.take 4] = ([⟨1, 11, 0, true⟩], true) ∧
+    connFramesEof [exMsgBytes] = ([⟨1, 11, 0, true⟩], false) := by decide
+
+/-- a run of the connection model fed from the bytes, one byte per read: a Delete (ID 1) and a
+search (ID 2) are issued and sent, the driver consumes the two frames, the Delete's caller gets
+its response, the stream its entry -/
+example :
+    (Conn.runObs (Conn.init 100) (srvEvents (connFrames ((exMsgBytes ++ exEntryBytes).map ([·]))) ++
+      [.alloc .single, .enqueue 0 none, .alloc .search, .enqueue 1 none, .drvOp true, .drvOp true, .poll 1,
+       .drvResp, .drvResp, .poll 0, .recv 0 none])).2.drop 9 =
+    [some .none, some .none, some (.res (some (.frame ⟨1, 11, 0, true⟩))), some (.item (some (.entry ⟨2, 4, 1, false⟩)))] := by
   decide
 
 end Ldap3V
